@@ -15,7 +15,7 @@ func init() {
 		Explanation: "Decides structural clauses of the hinted-handoff queue contract on every path: D1 an append is acknowledged only after its block was written and fsynced (the buffered path is a recorded finding); " +
 			"D2 buffered blocks are flushed before a segment file is closed; D3 queue.Empty is a function of queue content (head offset, size, buffer) and never of the file cursor, and every 'at end' comparison in the package is pos == size-footerSize; " +
 			"D4 SendWrite advances the queue only after the target answered (success or permanent rejection), on end-of-queue, or for an undecodable block; D5 the footer is written and synced before the in-memory head offset moves, blocks are synced before size grows; " +
-			"D6 frozen table of every site that may discard queued data, and the inactive-processor purge is guarded by Empty or (inactive and older than max age); D7 the batch split loop moves its window without gap or overlap and reports success only when the last window ended at len(points); D8 unmarshalWrite slices are length-guarded. " +
+			"D6 frozen table of every site that may discard queued data, and the inactive-processor purge is guarded by Empty or (inactive and older than max age); D7 the batch split loop moves its window without gap or overlap and reports success only when the last window ended at len(points); D8 unmarshalWrite slices are length-guarded; D9 flush before tail rotation, segments sorted by numeric id, head=first/tail=last; D10 every caller of addSegment stores queue.tail before a success return. " +
 			"NOT decided: ordering across concurrent appenders, crash images of torn blocks, the size limit arithmetic.",
 		RuleText:    "obligation = (rule, function, site); must-precede / outcome facts / path exploration over go/cfg; who-may-call tables; comparison shape of segment.pos vs segment.size",
 		Assumptions: commonAssumptions,
@@ -586,6 +586,42 @@ func runC04(c *core.Ctx) {
 				return true
 			})
 		}
+	})
+
+	c.Clause("D10", func() {
+		// queue.tail is the last element of queue.segments whenever a queue method returns: every caller of
+		// addSegment (which appends to the list) stores queue.tail before it can return success. A tail left on an
+		// older segment receives the appends while head trimming closes and removes that segment.
+		n := 0
+		for _, g := range c.P.FuncsIn(hhp) {
+			if g.Body == nil || g.Lit != nil {
+				continue
+			}
+			add := calleeIn(g, q("addSegment"))
+			tail := storeTo(g, "queue.tail")
+			k := 0
+			for _, a := range g.Graph().Find(evCall(add)) {
+				k++
+				n++
+				p := g.Flow().PathAvoiding(a, func(x *core.Event) bool {
+					if x.Kind != core.EvReturn {
+						return false
+					}
+					if g.ErrResultIndex() >= 0 {
+						if rf, _ := g.ReturnErrFact(x); rf.Nil == core.NonNil {
+							return false
+						}
+					}
+					return true
+				}, tail)
+				detail := ""
+				if p != nil {
+					detail = "a segment is appended to queue.segments and the function can return without queue.tail being moved to it: later appends go to the old tail, which head trimming closes and removes (every append is then refused with ErrNotOpen, or lands in a removed file): " + core.PathStr(p)
+				}
+				c.Check("tail-follows-added-segment", fmt.Sprintf("%s/addSegment#%d", g.Name, k), c.P.Pos(a.Pos()), p == nil, detail)
+			}
+		}
+		c.Floor("callers of addSegment", n, 3)
 	})
 }
 
